@@ -16,7 +16,7 @@ class C18(Prop):
     pid = "C18"
     lean_targets = ["M17.Props.C18", "M17.Props.C18B", "M17.Props.C18P"]
     theorems = ["M17.C18.gen_consts", "M17.C18.period_511", "M17.C18P.genState_periods", "M17.C18P.genBits_periods", "M17.C18P.ones_periods",
-                "M17.C18P.return_511_any_phase", "M17.C18P.bit_periodic", "M17.C18.nine_bits_determine", "M17.C18.locks_within_27",
+                "M17.C18P.return_511_any_phase", "M17.C18P.bit_periodic", "M17.C18P.bit_periodic_any_phase", "M17.C18.nine_bits_determine", "M17.C18.locks_within_27",
                 "M17.C18.locked_step", "M17.C18.exact_count", "M17.C18.unlock_at_25", "M17.C18.inv_at_lock",
                 "M17.C18B.getBit_pack", "M17.C18B.counts_at_lock", "M17.C18B.clean_run", "M17.C18B.rx_is_run", "M17.C18B.bert_end_to_end"]
     level_text = ("Lean 4 theorems about the modelled PRBS9 object: the generator from the reset state has period exactly 511 with 256 ones "
